@@ -9,8 +9,8 @@ open Mod
 
 /-! ### `with` configuration -/
 
-/-- **`with` names only declared variables (spec model)**: a successful configuration mentions
-only variables the module declares. -/
+/-- **`with` names only `!default` variables (spec model)**: a successful configuration mentions
+only variables the module declares with `!default`. -/
 theorem with_sets_only_default_vars (withs : List (Name × Nat)) (decls : List Decl) (ms : Members)
     (h : configure false withs decls = .ok ms) : ∀ w ∈ withs, declares decls w.1 = true := by
   unfold configure at h
